@@ -189,6 +189,10 @@ impl<'a, D> BfsPred<'a, D> {
     ///
     /// * `digraph`: The digraph.
     /// * `sources`: The source vertices.
+    ///
+    /// # Panics
+    ///
+    /// Panics if a source vertex isn't in the digraph.
     #[must_use]
     pub fn new<T>(digraph: &'a D, sources: T) -> Self
     where
@@ -198,14 +202,13 @@ impl<'a, D> BfsPred<'a, D> {
         let order = digraph.order();
         let mut queue = VecDeque::with_capacity(order);
         let mut visited = vec![false; order];
-        let visited_ptr = visited.as_mut_ptr();
 
         for u in sources {
+            assert!(u < order, "u = {u} isn't in the digraph");
+
             queue.push_back((None, u));
 
-            unsafe {
-                *visited_ptr.add(u) = true;
-            }
+            visited[u] = true;
         }
 
         Self {
@@ -581,17 +584,15 @@ where
 
     fn next(&mut self) -> Option<Self::Item> {
         let step @ (_, v) = self.queue.pop_front()?;
-        let visited_ptr = self.visited.as_mut_ptr();
 
         for u in self.digraph.out_neighbors(v) {
-            let visited_u = unsafe { visited_ptr.add(u) };
+            // Checked: a successor may lie outside `0..order`.
+            let visited_u = &mut self.visited[u];
 
-            unsafe {
-                if !*visited_u {
-                    *visited_u = true;
+            if !*visited_u {
+                *visited_u = true;
 
-                    self.queue.push_back((Some(v), u));
-                }
+                self.queue.push_back((Some(v), u));
             }
         }
 
